@@ -59,6 +59,12 @@ CHECKS = {
    text="Generated-history search: sequences of tokenize / parse (five entry points, valid, invalid, failing deep inside nesting, over the depth limit, cancelled at a drawn poll) / option changes / Reset / Release / pool Put->Get on one instance, followed by probe calls whose tokens, comments, dialect, tree and full error text must equal those of fresh instances configured as the current holder did. Probes include an input exactly as deep as a fresh parser accepts (so a leak of one recursion level shows), a dialect-sensitive statement and stray semicolons. Pool identity is forced by pinning the goroutine and pausing GC, and counted.",
    note="Trusted: sync.Pool returns the just-released object on a pinned goroutine (measured per run: pool_identity_hit_* classes); Release and Tokenizer.Reset are documented to keep configuration.",
    design="4/C08"),
+ "C11": dict(
+   technique="property-based testing with an owned schedule: a counting context.Context fires at the k-th poll; per generated input every poll index is enumerated exhaustively (up to 400, sampled above) with both context errors",
+   level="exploration",
+   text="Generated-input search x exhaustive enumeration of cancellation points per input: the input is first run with a context that never fires (result must equal the context-free call; P polls are counted), then with a context that turns done at every poll index k < P, with Canceled and DeadlineExceeded, through gosqlx.ParseWithContext, Tokenizer.TokenizeContext and Parser.ParseContext: no value may be returned, the error must match exactly that context error under errors.Is, at most 3 further polls may follow, and the tokenizer/parser used must answer a depth-limit probe exactly like fresh instances.",
+   note="Trusted: the library reads a context only through Err() (a Done()-based wait would not be counted); 'bounded further work' is measured in polls, not time.",
+   design="4/C11"),
 }
 
 def main():
